@@ -5,6 +5,9 @@
 #include "common/model_types.h"
 #include "common/to_ref.h"
 #include "common/dyn.h"
+#include <tuple>
+#include "bitserializer/types/std/tuple.h"
+#include "bitserializer/types/std/map.h"
 
 using namespace arch;
 using namespace mdl;
@@ -145,6 +148,54 @@ VF_PROPERTY(dyn_tree_any_encoding, 5, "arbitrary-shape tree (nil, bool, int64, u
 	// nil is "not loaded" for its target by design; everything else must be delivered
 	if (!has_nil(tree) && (lg.notLoaded || marked_not_loaded(target))) c.fail("a present value was reported as not loaded", d);
 	if (!has_nil(tree) && !refmp::same(target, tree)) c.fail("the loader delivered something else than the reference decoder reads", d);
+}
+
+// members the target does not know (and map entries rejected by a Skip policy) are skipped whatever they hold - application-defined ext
+// values of every size class included - and the known members behind them are still delivered
+namespace {
+Val gen_any(vf::Src& s, int depth) {
+	if (s.chance(1, 3)) { static const size_t sizes[] = { 1, 2, 4, 8, 16, 0, 3, 5, 17, 255, 256, 300 }; Val v; v.t = RT::Ext; v.extType = static_cast<int8_t>(s.coin() ? 1 + static_cast<int>(s.draw(126)) : -2 - static_cast<int>(s.draw(100))); v.s = std::string(sizes[s.draw(12)], static_cast<char>(0x80 + s.draw(0x20))); return v; }
+	if (depth > 0 && s.chance(1, 4)) { std::vector<Val> a; for (size_t n = s.draw(4); n > 0; n--) a.push_back(gen_any(s, depth - 1)); return refmp::mkArr(a); }
+	if (depth > 0 && s.chance(1, 4)) { std::vector<std::pair<Val, Val>> m; for (size_t n = s.draw(3), i = 0; i < n; i++) m.push_back({ refmp::mkStr("u" + std::to_string(i)), gen_any(s, depth - 1) }); return refmp::mkMap(m); }
+	return gen_tree(s, 0, false);
+}
+}
+VF_PROPERTY(unknown_members_skipped, 3, "object with 1..5 known members (integers, strings) interleaved with 0..5 members the target does not know, holding anything (scalars, nested containers, application-defined ext values of every fixext / ext8 / ext16 size class, timestamps), rendered by the reference encoder in any legal widths; loaded into a target that lists only the known members in any order, from memory and streams, followed by a sentinel: every known member is delivered exactly; non-trivial = an unknown member holds an ext value or a container")
+{
+	std::vector<std::pair<Val, Val>> doc, known; bool nt = false; const size_t nk = 1 + c.src.draw(5);
+	for (size_t i = 0; i < nk; i++) { for (size_t u = c.src.draw(3); u > 0; u--) { Val v = gen_any(c.src, 2); if (v.t == RT::Ext || v.t == RT::Arr || v.t == RT::Map) nt = true; doc.push_back({ refmp::mkStr(vf::cat("unknown", doc.size())), v }); }
+		Val kv = c.src.coin() ? refmp::mkInt(-1 - static_cast<int64_t>(c.src.draw(100000))) : refmp::mkStr("value" + std::to_string(c.src.draw(1000))); doc.push_back({ refmp::mkStr(vf::cat("k", i)), kv }); known.push_back(doc.back()); }
+	if (c.src.coin()) { Val v = gen_any(c.src, 2); if (v.t == RT::Ext) nt = true; doc.push_back({ refmp::mkStr("unknown_tail"), v }); }
+	const Val env = refmp::mkArr({ refmp::mkMap(doc), refmp::mkStr("sentinel") });
+	bool nm = false; std::string bytes; encode_tree(bytes, env, c.src, c.src.coin(), nm, true); const Cfg cfg = gen_read_cfg(c.src);
+	for (size_t k = known.size(); k > 1; k--) if (c.src.coin()) std::swap(known[k - 1], known[c.src.draw(k)]);   // request order
+	c.nontrivial = nt; c.describe(vf::cat("unknown members: ", refmp::show(refmp::mkMap(doc)).substr(0, 200), " ", cfg.str()));
+	Val target = refmp::mkArr({ dyn::shape(refmp::mkMap(known)), refmp::mkStr("") }); Outcome lo = dyn::load<MsgPackArchive>(target, bytes, cfg);
+	const std::string d = vf::cat(vf::hex(bytes.substr(0, 200)), " of ", refmp::show(env).substr(0, 300), " [", cfg.str(), "] => ", lo.str(), " loaded ", refmp::show(target).substr(0, 200));
+	if (!lo.ok()) c.fail("a valid encoding of the tree was rejected", d);
+	if (!refmp::same(target, refmp::mkArr({ refmp::mkMap(known), refmp::mkStr("sentinel") }))) c.fail("the loader delivered something else than the reference decoder reads", d);
+}
+
+VF_PROPERTY(typed_key_maps_with_skipped_entries, 2, "maps with integer keys loaded into std::map<uint8_t,int> / std::map<int16_t,std::string> under the Skip policies from a document in which some keys do not fit the key type or are strings: those entries are skipped, every other entry is delivered with its own value, the data behind the map still loads; any legal encoding, memory and streams; non-trivial = a skipped entry is followed by a loadable one")
+{
+	const bool small = c.src.coin(); std::vector<std::pair<Val, Val>> doc; std::map<int64_t, Val> want; bool skippedBefore = false, nt = false; const size_t n = 1 + c.src.draw(6);
+	for (size_t i = 0; i < n; i++) {
+		Val key; bool fits = true; const int64_t lim = small ? 255 : 32767, low = small ? 0 : -32768;
+		switch (c.src.draw(4)) { case 0: key = refmp::mkInt(lim + 1 + static_cast<int64_t>(c.src.draw(1000))); fits = false; break; case 1: key = small ? refmp::mkInt(-1 - static_cast<int64_t>(c.src.draw(100))) : refmp::mkInt(low - 1 - static_cast<int64_t>(c.src.draw(100))); fits = false; break; case 2: key = refmp::mkStr("key" + std::to_string(i)); fits = false; break; default: { int64_t k = low + static_cast<int64_t>(c.src.draw(static_cast<uint64_t>(lim - low + 1))); if (want.count(k)) k = lim - static_cast<int64_t>(i); key = refmp::mkInt(k); if (want.count(k)) fits = false; } }
+		Val value = small ? refmp::mkInt(static_cast<int64_t>(c.src.draw(100000)) - 50000) : refmp::mkStr("v" + std::to_string(c.src.draw(1000)));
+		if (fits) { want[static_cast<int64_t>(refmp::intValue(key))] = value; if (skippedBefore) nt = true; } else { if (key.t != RT::Str || true) skippedBefore = true; }
+		bool dup = false; for (auto& kv : doc) if (refmp::same(kv.first, key)) dup = true; if (dup) { if (fits) want.erase(static_cast<int64_t>(refmp::intValue(key))); continue; }
+		doc.push_back({ key, value });
+	}
+	const Val env = refmp::mkArr({ refmp::mkMap(doc), refmp::mkStr("sentinel") }); bool nm = false; std::string bytes; encode_tree(bytes, env, c.src, c.src.coin(), nm, true);
+	Cfg cfg = gen_read_cfg(c.src); cfg.opt.overflowNumberPolicy = OverflowNumberPolicy::Skip; cfg.opt.mismatchedTypesPolicy = MismatchedTypesPolicy::Skip;
+	c.nontrivial = nt; c.describe(vf::cat("typed-key map ", small ? "uint8" : "int16", " ", refmp::show(refmp::mkMap(doc)).substr(0, 200), " ", cfg.str()));
+	std::string got, wantS; Outcome lo; std::string sentinel;
+	if (small) { std::tuple<std::map<uint8_t, int>, std::string> t; lo = load<MsgPackArchive>(t, bytes, cfg); for (auto& kv : std::get<0>(t)) got += vf::cat(static_cast<int>(kv.first), "=", kv.second, " "); sentinel = std::get<1>(t); for (auto& kv : want) wantS += vf::cat(kv.first, "=", static_cast<int64_t>(refmp::intValue(kv.second)), " "); }
+	else { std::tuple<std::map<int16_t, std::string>, std::string> t; lo = load<MsgPackArchive>(t, bytes, cfg); for (auto& kv : std::get<0>(t)) got += vf::cat(kv.first, "=", kv.second, " "); sentinel = std::get<1>(t); for (auto& kv : want) wantS += vf::cat(kv.first, "=", kv.second.s, " "); }
+	const std::string d = vf::cat(vf::hex(bytes.substr(0, 160)), " of ", refmp::show(env).substr(0, 300), " [", cfg.str(), "] => ", lo.str(), " loaded {", got, "} want {", wantS, "} sentinel='", sentinel, "'");
+	if (!lo.ok()) c.fail("a valid encoding of the tree was rejected", d);
+	if (got != wantS || sentinel != "sentinel") c.fail("the loader delivered something else than the reference decoder reads", d);
 }
 
 VF_PROPERTY(truncated_documents, 3, "every strict prefix of a valid document (typed class / dynamic tree) must be rejected with a SerializationException - from memory and from streams; non-trivial = prefix ends inside a nested container")
